@@ -120,6 +120,8 @@ static Value genTransport(vg::Rng &r, bool big) {
   int qs = 0;
   if (big && mode != 2 && style != 2) qs = (int)r.pick(std::vector<int>{0, 27, 31, 33, 36});
   v.set("qscale", qs);
+  // increaseCapacity() when the capacity already suffices: must change nothing (this is the call sequence of the rough legalizer)
+  v.set("incNoop", mode != 2 && r.chance(0.6));
   return v;
 }
 
@@ -248,7 +250,7 @@ static std::vector<long long> potentials(const std::vector<long long> &cap, cons
                                          const std::vector<std::vector<long long>> &alloc) {
   int n = (int)cap.size();
   int m = n ? (int)alloc[0].size() : 0;
-  const long long INF = 1000000000LL;
+  const long long INF = (1LL << 60);
   std::vector<std::vector<long long>> w(n, std::vector<long long>(n, INF));
   for (int i = 0; i < n; ++i) {
     long long used = 0;
@@ -307,13 +309,17 @@ static void runTransport(int run, const Value &in) {
   Value ev = vt::ev("Transport");
   ev.set("run", run).set("qscale", qs);
   auto finish = [&](TransportationProblem &pb) {
-    if (in["increase"].asBool()) pb.increaseCapacity();
+    if (in["increase"].asBool() || (in.has("incNoop") && in["incNoop"].asBool())) pb.increaseCapacity();
     pb.solve();
     std::vector<std::vector<long long>> costs(ns, std::vector<long long>(nr));
     for (int i = 0; i < ns; ++i)
       for (int s = 0; s < nr; ++s) costs[i][s] = pb.cost(i, s);
     // back to units of 2^qscale (exact for the plans of this solver; if not, the event says so and TLC gives no verdict on the plan)
-    std::vector<long long> ucap = pb.capacities(), udem = pb.demands();
+    // capacities as posed: increaseCapacity() on a problem whose capacity suffices must not change them, and the plan is judged
+    // against what the caller posed
+    bool noop = !in["increase"].asBool() && in.has("incNoop") && in["incNoop"].asBool();
+    std::vector<long long> ucap = noop ? cap : pb.capacities(), udem = pb.demands();
+    ev.set("capKept", !noop || pb.capacities() == cap);
     std::vector<std::vector<long long>> ualloc = pb.allocations();
     bool units = true;
     long long mask = qs > 0 ? ((1LL << qs) - 1) : 0;
@@ -324,7 +330,16 @@ static void runTransport(int run, const Value &in) {
     ev.set("units", units);
     ev.set("cap", Value::from(ucap)).set("dem", Value::from(udem)).set("cost", mat(costs));
     ev.set("alloc", mat(ualloc));
-    ev.set("pot", Value::from(potentials(ucap, costs, ualloc)));
+    {
+      // potentials as hi * 2^20 + lo: path sums of scaled costs may exceed 32 bits
+      std::vector<long long> pot = potentials(ucap, costs, ualloc), ph, pl;
+      for (long long v : pot) {
+        long long hi = v >= 0 ? v / 1048576 : -((-v + 1048575) / 1048576);
+        ph.push_back(hi);
+        pl.push_back(v - hi * 1048576);
+      }
+      ev.set("poth", Value::from(ph)).set("potl", Value::from(pl));
+    }
     std::vector<int> as = pb.toAssignment();
     for (auto &a : as) a += 1;
     ev.set("assign", Value::from(as));
@@ -361,13 +376,19 @@ static void runT1d(int run, const Value &in) {
       std::vector<std::vector<long long>> cost(ns, std::vector<long long>(nr));
       for (int j = 0; j < ns; ++j)
         for (int i = 0; i < nr; ++i) cost[j][i] = pb.cost(i, j);
-      ev.set("pot", Value::from(potentials(pb.sinkDemand(), cost, alloc)));
+      std::vector<long long> pot = potentials(pb.sinkDemand(), cost, alloc), ph, pl;
+      for (long long v : pot) {
+        long long hi = v >= 0 ? v / 1048576 : -((-v + 1048575) / 1048576);
+        ph.push_back(hi);
+        pl.push_back(v - hi * 1048576);
+      }
+      ev.set("poth", Value::from(ph)).set("potl", Value::from(pl));
     }
     std::vector<int> as = pb.assign();
     for (auto &a : as) a += 1;
     ev.set("assign", Value::from(as)).set("fate", "ok");
   } catch (std::exception &ex) {
-    ev.set("alloc", Value::array()).set("pot", Value::array()).set("assign", Value::array()).set("fate", std::string("throw: ") + ex.what());
+    ev.set("alloc", Value::array()).set("poth", Value::array()).set("potl", Value::array()).set("assign", Value::array()).set("fate", std::string("throw: ") + ex.what());
   }
   vt::emit(ev);
 }
